@@ -47,12 +47,12 @@ type verifFS struct {
 	lastInt    int
 	linkTarget string
 	lastExpect uint32
-	faultClose bool // Close may fail too (C05/C15); otherwise it never does
-	failAll    bool // every backend call fails (set per step by a harness)
-	onEnter    func() // called at the start of every File method (sequential mode)
-	useWGAall  bool   // every node implements WalkGetAttr
-	sched      bool   // emit be-enter/be-exit events (schedule layer)
-	curReq     string // tag of the request the running thread serves
+	faultClose bool     // Close may fail too (C05/C15); otherwise it never does
+	failAll    bool     // every backend call fails (set per step by a harness)
+	onEnter    func()   // called at the start of every File method (sequential mode)
+	useWGAall  bool     // every node implements WalkGetAttr
+	sched      bool     // emit be-enter/be-exit events (schedule layer)
+	curReq     string   // tag of the request the running thread serves
 	walkMode   FileMode // if non-zero, the mode reported for walked nodes
 }
 
